@@ -524,13 +524,13 @@ def khash(s):
     return h
 
 
-LEVEL = {"num": 0, "xnum": 0, "var": 0, "paren": 0, "call": 0, "fact": 1, "sign": 2, "qty": 3, "range": 4, "str": 5, "inst": 5,
+LEVELS = {"num": 0, "xnum": 0, "var": 0, "paren": 0, "call": 0, "fact": 1, "sign": 2, "qty": 3, "range": 4, "str": 5, "inst": 5,
          "arr": 5, "compr": 5, "interval": 5, "cmp1": 9, "cmp2": 9, "conv": 10}
 BINLEVEL = {"^": 6, "*": 7, "/": 7, "%": 7, "+": 8, "-": 8, "±": 8}
 
 
 def level(t):
-    return BINLEVEL[t[1]] if t[0] == "bin" else LEVEL[t[0]]
+    return BINLEVEL[t[1]] if t[0] == "bin" else LEVELS[t[0]]
 
 
 def ends_units(t):
@@ -836,8 +836,9 @@ def run_trees(ctx, rep, progs, stats, rng, samples):
     if not bad:
         return
     # shrink: the smallest failing sub-expression of each failing tree names the root cause
+    bad.sort(key=lambda b: (tsize_prog(progs[b[0]]), b[0]))
     subs, owner = [], []
-    for i, why in bad[:60]:
+    for i, why in bad[:40]:
         for t in prog_trees(progs[i]):
             for s in subtrees(t):
                 subs.append([("expr", s)])
@@ -853,11 +854,13 @@ def run_trees(ctx, rep, progs, stats, rng, samples):
             if i not in best or tsize(t) < tsize(best[i][0]):
                 best[i] = (t, sm, so)
     seen = set()
-    for i, why in bad:
+    for i, why in bad[:40]:
+        if len(seen) >= 8:
+            break
         p, m, c, o = progs[i], ports[i], cases[i], obs[i]
         if i in best:
             t, sm, so = best[i]
-            node = dict(node=head(t), children=[head(x) for x in children(t)])
+            node = dict(node=head(t), children=[head(x) for x in children(t) if children(x)])
             ex = dict(min=render(sm["min"]), full=render(sm["full"]), impl_min=so["min"], impl_full=so["full"], expected=sm["desugar"])
         else:
             node = dict(node="program", children=[s[0] for s in p])
@@ -883,7 +886,7 @@ def run_trees(ctx, rep, progs, stats, rng, samples):
         if key in seen:
             continue
         seen.add(key)
-        rep.violation(sig, what, dict(kind="sst", prog=p, **ex), found_input=fi)
+        rep.violation(sig, what + " (%d failing trees in all)" % len(bad), dict(kind="sst", prog=p, **ex), found_input=fi)
 
 
 def tsize_prog(p):
